@@ -156,6 +156,7 @@ pub const ALL_KINDS: &[&str] = &[
     "call-non-fn",
     "void-store",
     "generic",
+    "blob-type",
 ];
 
 pub fn family_of(kind: &str) -> &'static str {
@@ -169,6 +170,7 @@ pub fn family_of(kind: &str) -> &'static str {
         "call-non-fn" => "non-function",
         "void-store" => "void",
         "generic" => "generic",
+        "blob-type" => "blob",
         _ => "other",
     }
 }
@@ -649,6 +651,36 @@ pub fn make(kind: &'static str, want: Option<&Ty>, env: &Env, s: &mut Sel) -> Op
             let usable: Vec<&(&str, &str, bool)> = G.iter().filter(|g| !(g.2 && env.pure_)).collect();
             let g = *s.pick(&usable);
             Some(plant(kind, g.0.to_string(), g.1.to_string(), Form::Stmt))
+        }
+        "blob-type" => {
+            // two blob types of which one has all the fields of the other and one more (`Zqs { zf }`, `Zqb { zf, zg }`, see
+            // add_helpers), met in both directions: declared richer / given poorer and the other way round
+            if want.is_some() || !env.stmts {
+                return None;
+            }
+            const B: &str = "Zqb { zf: 1, zg: \"s\" }";
+            const S: &str = "Zqs { zf: 2 }";
+            let pairs: Vec<(String, String, bool)> = vec![
+                (format!("zq1: Zqb : {}", S), format!("zq1: Zqb : {}", B), false),
+                (format!("zq1: Zqs : {}", B), format!("zq1: Zqs : {}", S), false),
+                (format!("zq1: Zqb = {}", S), format!("zq1: Zqb = {}", B), true),
+                (format!("zq2 :: pu zqp: Zqb -> int do\n    1\nend\nzq1 :: zq2({})", S), format!("zq2 :: pu zqp: Zqb -> int do\n    1\nend\nzq1 :: zq2({})", B), false),
+                (format!("zq2 :: pu zqp: Zqs -> int do\n    1\nend\nzq1 :: zq2({})", B), format!("zq2 :: pu zqp: Zqs -> int do\n    1\nend\nzq1 :: zq2({})", S), false),
+                (format!("zq2 :: pu zqp: Zqb -> int do\n    zqp.zf\nend\nzq1 :: zq2({})", S), format!("zq2 :: pu zqp: Zqb -> int do\n    zqp.zf\nend\nzq1 :: zq2({})", B), false),
+                (format!("zq1 :: [{}, {}]", B, S), format!("zq1 :: [{}, {}]", B, B), false),
+                (format!("zq1 :: [{}, {}]", S, B), format!("zq1 :: [{}, {}]", S, S), false),
+                (format!("zq2 :: pu -> Zqb do\n    {}\nend", S), format!("zq2 :: pu -> Zqb do\n    {}\nend", B), false),
+                (format!("zq2 :: pu -> Zqs do\n    {}\nend", B), format!("zq2 :: pu -> Zqs do\n    {}\nend", S), false),
+                (format!("zq1 :: if true do\n    {}\nelse\n    {}\nend", B, S), format!("zq1 :: if true do\n    {}\nelse\n    {}\nend", B, B), false),
+                (format!("zq1 := {}\nzq1 = {}", B, S), format!("zq1 := {}\nzq1 = {}", B, B), true),
+                (format!("zq1 := {}\nzq1 = {}", S, B), format!("zq1 := {}\nzq1 = {}", S, S), true),
+                (format!("zq1 :: ({}, 1) == ({}, 1)", B, S), format!("zq1 :: ({}, 1) == ({}, 1)", B, B), false),
+                ("zq1 :: dict.len(set.from_list([1, 2]))".to_string(), "zq1 :: set.len(set.from_list([1, 2]))".to_string(), true),
+                ("zq1: dict.Dict(int, int) : set.from_list([1, 2])".to_string(), "zq1: set.Set(int) : set.from_list([1, 2])".to_string(), true),
+            ];
+            let usable: Vec<&(String, String, bool)> = pairs.iter().filter(|g| !(g.2 && env.pure_)).collect();
+            let g = *s.pick(&usable);
+            Some(plant(kind, g.0.clone(), g.1.clone(), Form::Stmt))
         }
         _ => None,
     }
